@@ -36,6 +36,7 @@ Effect(op, s, v) ==
     [] op = "GetAuth"   -> <<s, s.auth>>
     [] op = "ClearAuth" -> <<IF s.ex THEN [s EXCEPT !.auth = 0] ELSE s, 0>>
     [] op = "Remove"    -> <<None, 0>>
+    [] op = "flood"     -> <<s, 0>>     \* many other sessions are written: ids do not interfere
 
 Reset  == l <= Len(Trace) /\ E.ev = "sreset" /\ l' = l + 1 /\ m' = <<>> /\ pend' = <<>>
 \* the end of a history is reached only with every call returned
@@ -52,7 +53,13 @@ Lin(t)  == /\ P(t).st = "inv"
 Return == l <= Len(Trace) /\ E.ev = "sret" /\ P(E.thr).st = "lin" /\ ~E.err /\ E.res = pend[E.thr].res
           /\ pend' = [pend EXCEPT ![E.thr] = Idle] /\ l' = l + 1 /\ UNCHANGED m
 
-Next == Reset \/ End \/ Invoke \/ Return \/ \E t \in DOMAIN pend : Lin(t)
+\* a clock advance between calls (the preamble of a history): when it is longer than a configured limit, every
+\* session written before it has timed out - the store must behave as if they had never existed, also when several
+\* goroutines are the first to find that out at the same time
+Tick   == l <= Len(Trace) /\ E.ev = "stick" /\ (\A t \in DOMAIN pend : pend[t].st = "idle")
+          /\ m' = (IF E.all THEN <<>> ELSE m) /\ l' = l + 1 /\ UNCHANGED pend
+
+Next == Reset \/ End \/ Invoke \/ Return \/ Tick \/ \E t \in DOMAIN pend : Lin(t)
 Spec == Init /\ [][Next]_vars
 
 \* high-water mark of the trace position (register 1), kept by a constraint that is evaluated on every state
